@@ -15,7 +15,7 @@ RULE = ("the C01 population (matrix / random / maximal value trees over matrix s
         "each additionally (a) re-parsed from its own bytes, (b) re-parsed from bytes with unknown records appended and "
         "interleaved (so the message carries unknown fields), (c) with empty-but-present optional / oneof / nested "
         "members; for each message: len(m) vs len(bytes(m)), dump(stream) vs bytes(m), dump(stream, SIZE_DELIMITED) vs "
-        "spec-varint(len) + bytes(m), SerializeToString vs bytes. The len contract on Message.__bytes__ also observes "
+        "spec-varint(len) + bytes(m), SerializeToString vs bytes. (d) measured, then grown through its containers / descendants only (no attribute of the message itself assigned), then measured again; The len contract on Message.__bytes__ also observes "
         "every nested serialisation. distinct = distinct (schema, type, tree, variant).")
 ASSUMPTIONS = [
     "the varint length prefix is computed by the independent spec-level codec",
